@@ -29,18 +29,93 @@ import (
 
 func init() { extractors = append(extractors, extractAccessTable) }
 
-// tracked fields, by package directory
-var accessFields = map[string][]string{
+// A field the reviewed tables (or this file) speak about has a ROLE name.  The role name is what the generated
+// table and the reviewed tables use; it is the Go name the field had when the role was introduced.  The field that
+// plays the role today is found by that name if the struct still has a field called so, else — the field was renamed
+// — by its type and its ordinal among the struct's fields of that type (typeKey as in typeload.go stableFieldNames:
+// "mutex" / "cond" for the sync types).  Renaming an unexported field therefore changes nothing in the generated
+// table; inserting a field of the same type before it does not either, as long as the name is still there.
+// Fields without a role are named by type and ordinal alone ("ServerPeer.mutex#1").
+type fieldRole struct {
+	Role    string // "pkg.Type.name"
+	Type    string // type key of the field
+	Ord     int    // 1-based ordinal among the struct's fields with that type key
+	Tracked bool   // accesses to it are rows of the table (else the role only gives it a stable name)
+}
+
+// roles, by package directory
+var fieldRoles = map[string][]fieldRole{
 	"": {
-		"blockManager.headerTip", "blockManager.headerTipHash", "blockManager.filterHeaderTip",
-		"blockManager.filterHeaderTipHash", "blockManager.syncPeer", "blockManager.lastRequested",
-		"ServerPeer.recvSubscribers", "ServerPeer.recvSubscribers2",
-		"UtxoScanner.pq", "UtxoScanner.nextBatch", "GetUtxoRequest.result",
-		"Rescan.err", "ChainService.peerSubscribers", "ChainService.firstPeerConnect",
+		{"blockManager.headerTip", "uint32", 1, true}, {"blockManager.headerTipHash", "chainhash.Hash", 2, true},
+		{"blockManager.filterHeaderTip", "uint32", 2, true}, {"blockManager.filterHeaderTipHash", "chainhash.Hash", 3, true},
+		{"blockManager.syncPeer", "*ServerPeer", 1, true}, {"blockManager.lastRequested", "chainhash.Hash", 4, true},
+		{"ServerPeer.recvSubscribers", "map[spMsgSubscription]struct{}", 1, true},
+		{"ServerPeer.recvSubscribers2", "map[msgSubscription]struct{}", 1, true},
+		{"UtxoScanner.pq", "GetUtxoRequestPQ", 1, true}, {"UtxoScanner.nextBatch", "[]*GetUtxoRequest", 1, true},
+		{"GetUtxoRequest.result", "*getUtxoResult", 1, true},
+		{"Rescan.err", "error", 1, true}, {"ChainService.peerSubscribers", "[]*peerSubscription", 1, true},
+		{"ChainService.firstPeerConnect", "chan struct{}", 1, true},
+		// named by the reviewed `ordered` table (tracked anyway: fields of a callback's receiver struct)
+		{"cfiltersQuery.targetFilter", "*gcs.Filter", 1, false}, {"cfiltersQuery.headerIndex", "map[chainhash.Hash]int", 1, false},
+		// named by the reviewed lock-alias table (sync.NewCond(&bm.newHeadersMtx))
+		{"blockManager.newHeadersMtx", "mutex", 1, false}, {"blockManager.newHeadersSignal", "cond", 1, false},
 	},
-	"headerfs":   {"headerfs.headerFile.file", "headerfs.headerIndex.db", "headerfs.headerIndex.indexType"},
-	"cache/lru":  {"lru.Cache.ll", "lru.Cache.size"},
-	"blockntfns": {"blockntfns.SubscriptionManager.subscribers"},
+	"headerfs": {
+		{"headerfs.headerFile.file", "headerfs.File", 1, true}, {"headerfs.headerIndex.db", "walletdb.DB", 1, true},
+		{"headerfs.headerIndex.indexType", "headerfs.HeaderType", 1, true},
+		// named by the reviewed caller-holds table
+		{"headerfs.headerStore.mtx", "mutex", 1, false},
+	},
+	"cache/lru":  {{"lru.Cache.ll", "*lru.List[lru.entry[K, V]]", 1, true}, {"lru.Cache.size", "uint64", 2, true}},
+	"blockntfns": {{"blockntfns.SubscriptionManager.subscribers", "map[uint64]*blockntfns.newSubscription", 1, true}},
+}
+
+// captured local variables of callback closures that the reviewed tables name: (enclosing function, variable) with
+// the same name-first / type-and-ordinal-second resolution among the variables the closure writes
+var capturedRoles = []fieldRole{
+	{"ChainService.GetBlock.foundBlock", "*btcutil.Block", 1, false},
+}
+
+// resolveRoles overrides pi.stableName for the fields of package dir that have a role; it returns the tracked roles.
+func resolveRoles(pi *pkgInfo, dir string) []string {
+	var tracked []string
+	// struct -> fields in declaration order is what stableName encodes; invert the two maps once
+	byGo := map[string]*types.Var{}
+	byStable := map[string]*types.Var{}
+	for v, n := range pi.fieldName {
+		byGo[n] = v
+	}
+	for v, n := range pi.stableName {
+		byStable[n] = v
+	}
+	claimed := map[*types.Var]string{}
+	var later []fieldRole
+	for _, r := range fieldRoles[dir] {
+		if v := byGo[r.Role]; v != nil {
+			claimed[v] = r.Role
+		} else {
+			later = append(later, r)
+		}
+	}
+	for _, r := range later {
+		i := strings.LastIndex(r.Role, ".")
+		v := byStable[fmt.Sprintf("%s.%s#%d", r.Role[:i], r.Type, r.Ord)]
+		if v == nil || claimed[v] != "" {
+			fail("C18: no field of %s plays the role %s any more (not by name, not as field #%d of type %s)", r.Role[:i], r.Role, r.Ord, r.Type)
+			continue
+		}
+		claimed[v] = r.Role
+		fmt.Printf("extract: C18 role %s is now played by field %s\n", r.Role, pi.fieldName[v])
+	}
+	for v, role := range claimed {
+		pi.stableName[v] = role
+	}
+	for _, r := range fieldRoles[dir] {
+		if r.Tracked {
+			tracked = append(tracked, r.Role)
+		}
+	}
+	return tracked
 }
 
 var mutatingMethods = map[string]bool{
@@ -442,18 +517,21 @@ func (w *accessWalker) stmt(s ast.Stmt, held lockSet) lockSet {
 func extractAccessTable() {
 	l := newLean("AccessTable")
 	defer l.write()
+	useStableNames = true
+	defer func() { useStableNames = false }()
 	var rows []accessRow
 	var calls []callRow
 	var acqs, rels []acqRow
 	var callbacks []callbackInfo
 	var dynFields []string
 	funcs := map[string]*funcFacts{}
-	dirs := make([]string, 0, len(accessFields))
-	for d := range accessFields {
+	dirs := make([]string, 0, len(fieldRoles))
+	for d := range fieldRoles {
 		dirs = append(dirs, d)
 	}
 	sort.Strings(dirs)
 	seenField := map[string]bool{}
+	trackedRoles := map[string][]string{}
 	for _, dir := range dirs {
 		pi := loadPkg(dir)
 		if pi == nil || pi.pkg == nil {
@@ -461,15 +539,9 @@ func extractAccessTable() {
 			continue
 		}
 		tracked := map[string]bool{}
-		known := map[string]bool{}
-		for _, n := range pi.fieldName {
-			known[n] = true
-		}
-		for _, f := range accessFields[dir] {
+		trackedRoles[dir] = resolveRoles(pi, dir)
+		for _, f := range trackedRoles[dir] {
 			tracked[f] = true
-			if !known[f] {
-				fail("C18: struct field %s not found in package %q", f, dir)
-			}
 		}
 		// per-response callbacks of the work manager (root package): the receiver structs' fields are tracked too
 		relOf := func(base string) string {
@@ -485,8 +557,9 @@ func extractAccessTable() {
 				if cb.Recv == "" {
 					continue
 				}
-				for _, n := range pi.fieldName {
-					if strings.HasPrefix(n, cb.Recv+".") && !tracked[n] {
+				for v, goName := range pi.fieldName {
+					n := pi.stableName[v]
+					if strings.HasPrefix(goName, cb.Recv+".") && n != "" && !tracked[n] {
 						tracked[n] = true
 						dynFields = append(dynFields, n)
 					}
@@ -602,7 +675,7 @@ func extractAccessTable() {
 	}
 	var fields []string
 	for _, dir := range dirs {
-		for _, f := range accessFields[dir] {
+		for _, f := range trackedRoles[dir] {
 			fields = append(fields, in.ref(f))
 		}
 	}
@@ -642,6 +715,28 @@ func extractAccessTable() {
 		cbs = append(cbs, fmt.Sprintf("  ⟨%s, %s⟩", in.ref(cb.Fn), lbool(cb.Multi)))
 		fmt.Printf("extract: C18 work-manager callback %s (multi=%v) registered at %s:%d\n", cb.Fn, cb.Multi, cb.File, cb.Line)
 	}
+	// display only, in a module of its own: what the rename-proof names are called in the source today.  The table
+	// module above does not change when an unexported field, a mutex or a closure variable is renamed; this one does.
+	ln := newLean("AccessNames")
+	var disp []string
+	for _, n := range in.names {
+		g, ok := stableDisplay[n]
+		if !ok {
+			// "Struct.cond#1.L": the field path continues behind the stable part
+			for st, gn := range stableDisplay {
+				if strings.HasPrefix(n, st+".") {
+					g, ok = gn+n[len(st):], true
+				}
+			}
+		}
+		if ok {
+			disp = append(disp, fmt.Sprintf("(%s, %s)", lq(n), lq(g)))
+		}
+	}
+	ln.def("goNames", "List (String × String)", "["+strings.Join(disp, ",\n  ")+"]",
+		"stable name of Gen.AccessTable -> the Go identifier it stands for in the working tree (display only)")
+	ln.write()
+	component = l.name
 	in.emit(l)
 	l.sb.WriteString("/-- a per-response callback handed to the work manager (query.Request.HandleResp); `multi`: registered in a loop, so the callbacks of one query can run on several worker goroutines at once -/\nstructure Callback where\n  fn : Nat\n  multi : Bool\n  deriving Repr, DecidableEq\n\n")
 	l.sb.WriteString("structure Held where\n  lock : Nat\n  excl : Bool\n  deriving Repr, DecidableEq\n\n")
